@@ -51,11 +51,17 @@ PROPS = {
     },
     "C06": {
         "level": "proof", "prove": True, "ground": ["idsAreIDCH", "noRefPrefix"],
+        # the last clause of C06 ("using the returned list as the allowed list always satisfies the expression") is a statement
+        # about Satisfies: it rests on Satisfies' closed form result == semL(tree, list) (the C07 chain: stringsToNodes,
+        # sortAndDedup, isCompatible) and on the Boolean reading of the expansion (the C01 chain), so this check also
+        # discharges the obligations tagged C07 and C01
+        "rests_on": ["C07", "C01"],
         "bounded": {"search": "C06", "quick": "8s", "thorough": "120s",
                     "what": "'every returned string extracts to itself' and 'the returned list satisfies the expression' relate two API calls and are not under contract; they are checked by execution against the reference oracle on enumerated expressions (BOUNDED)"},
         "assumptions": DEFS_BY_CODE + [
             "proved: no term of the expression is missing from the result (for every leaf x of the tree the canonical string of x occurs in the result), none is invented (every returned string is the canonical string of some leaf of the tree), and the result is duplicate-free",
             "canonical spelling: the returned string of a term is reconT of its tree (contract of reconstructedLicenseString); that the id inside is the list's spelling is C09",
+            "this check also discharges every obligation tagged C07 and C01: the self-satisfaction clause is a statement about Satisfies, whose verdict is proved to be semL(tree, allowed list) by those chains",
             "proved (lemma coveredLeavesSatisfy, structural induction by cvc5): an allowed list that covers every leaf of a tree satisfies it; with matching reflexive (C02 lemmas) the self-satisfaction clause reduces to the round trip 'the canonical string of a term parses back to that term', which is the bounded part",
         ],
     },
